@@ -393,11 +393,14 @@ def run(ctx):
 
     # ---- correspondence
     mism = []
+    flags = {}
     answers = {"null": 0, "list": 0, "mute": 0, "other": 0}
     for n, (j, k) in enumerate(flat):
         r = srv[j][k]
         answers["mute" if r == "mute" else "null" if r is None else "list" if isinstance(r, list) else "other"] += 1
-        if enc_response(r) != enc.nums(model[n]):
+        mn = enc.nums(model[n])
+        flags[(j, k)] = mn[1] if len(mn) > 1 and mn[0] == 0 else None
+        if enc_response(r) != (mn[:1] + mn[2:] if mn[0] == 0 else mn):
             mism.append(n)
 
     # ---- oracle
@@ -405,6 +408,7 @@ def run(ctx):
     hist = {}
     fail_hist = {}
     nontrivial = set()
+    flag_hist, spec_disagree = {}, []
     offset_of = {}
     for j, m in enumerate(meta):
         if m is None:
@@ -422,6 +426,12 @@ def run(ctx):
                 exp = expectation(cls, di, prog, infos, scope)
                 probs = judge_items(cls, exp, r, prog, infos, scope)
                 nontrivial.add((text, line, col))
+                # the Coq statement completion_full_statement, decided by the judge for this document and position
+                # (1 holds, 2 fails, 0 no claim), must agree with this oracle
+                fl = flags.get((j, k))
+                flag_hist[fl] = flag_hist.get(fl, 0) + 1
+                if fl != (2 if probs else 1):
+                    spec_disagree.append((j, k, fl, probs))
             else:
                 hist["random"] = hist.get("random", 0) + 1
                 probs = ["no response (handler panic)"] if r == "mute" else []
@@ -493,6 +503,12 @@ def run(ctx):
             ctx.violation(dict(kind="correspondence", property=PID, text=jobs[j][0], position=list(jobs[j][1][k]),
                                server=enc_response(srv[j][k]), model=model[n], mismatches=len(mism), kernel_failures=len(kfail),
                                what="Model/Completion.v and the server's completion answer differ (sorted canonical encodings)"), no_input=True)
+        elif spec_disagree:
+            j, k, fl, probs = spec_disagree[0]
+            ctx.violation(dict(kind="specification", property=PID, text=jobs[j][0], position=list(jobs[j][1][k]), coq_flag=fl, oracle_problems=probs,
+                               cases=len(spec_disagree),
+                               what="the Coq statement completion_full_statement (decided by the judge: 1 holds, 2 fails, 0 no claim) and the "
+                                    "python oracle disagree at this oracle position"), no_input=True)
         elif not proved:
             ctx.violation(dict(kind="proof", property=PID, detail=getattr(ctx, "proof_failure", None)), no_input=True)
 
@@ -509,6 +525,8 @@ def run(ctx):
                 "iff main is absent)); `no name local to another procedure` at every position. non-trivial = distinct oracle positions",
         "input_histogram": dict(position_classes=hist, answers=answers, programs=len(progs), malformed=len([m for m in meta if m is None]) - len(corpus), corpus=len(corpus)),
         "oracle_failure_histogram": fail_hist,
+        "coq_full_statement_flags_at_oracle_positions": {str(k): v for k, v in flag_hist.items()},
+        "coq_spec_vs_oracle_disagreements": len(spec_disagree),
         "traces_validated_against_impl": len(flat) - len(mism),
         "correspondence_mismatches": len(mism) + len(kfail), "kernel_judge_cases": len(pick),
         "mute_answers": len(mutes), "mute_confirmed_of_first_3": confirmed_mute,
